@@ -106,6 +106,9 @@ class Evaluator:
                         return conv.get(v)
                     return (not v) if neg else v
                 return None
+        rw = self._rewrite_cmp(t)
+        if rw is not None:
+            return self.ev(rw, depth + 1)
         if is_cmp_term(t):
             op, a, b = cmp_parts(t)
             if self.classify is not None:
@@ -199,12 +202,101 @@ class Evaluator:
                 if isinstance(v, tuple) and v[0] == 'ord':
                     return ('ord', MIRROR[v[1]])
                 return None
+            cv = self._ev_combinator(t, n, d, depth)
+            if cv is not NotImplemented:
+                return cv
             if self.expand_local and info['local'] and info['uid']:
                 s = local_summary(self.facts, t)
                 if s is not None:
                     return self.ev(s, depth + 1)
             return None
         return None
+
+    # ---- equivalent spellings of a comparison
+    def _rewrite_cmp(self, t):
+        """`(a..b).is_empty()` is `a >= b`; `max(a, b) != a` is `b > a`, `min(a, b) != a` is `b < a`, and so on."""
+        from .terms import drop_lv
+        if t[0] == 'call' and call_name(t) == 'is_empty' and len(t[2]) == 1:
+            r = drop_lv(t[2][0])
+            if r[0] == 'agg' and r[1].endswith('ops::Range') and len(r[3]) == 2:
+                f = dict(r[3])
+                if 'start' in f and 'end' in f:
+                    return ('binop', 'Ge', f['start'], f['end'])
+        if is_cmp_term(t):
+            op, a, b = cmp_parts(t)
+            if op in ('Eq', 'Ne', 'eq', 'ne'):
+                for x, y in ((a, b), (b, a)):
+                    xs = drop_lv(x)
+                    if xs[0] == 'call' and call_name(xs) in ('max', 'min') and len(xs[2]) == 2:
+                        p, q = xs[2]
+                        ys = drop_lv(y)
+                        mx = call_name(xs) == 'max'
+                        ne = op in ('Ne', 'ne')
+                        if drop_lv(p) == ys:      # max(p, q) == p  <=>  q <= p ;  min(p, q) == p  <=>  q >= p
+                            return ('binop', ('Gt' if mx else 'Lt') if ne else ('Le' if mx else 'Ge'), q, p)
+                        if drop_lv(q) == ys:
+                            return ('binop', ('Gt' if mx else 'Lt') if ne else ('Le' if mx else 'Ge'), p, q)
+        return None
+
+    # ---- Option / bool combinators with pure closures, at term level
+    def _clo(self, clo, payload, depth):
+        from .terms import subst
+        if clo[0] != 'closure':
+            return None
+        cb = self.facts.cb(clo[1]) if hasattr(self.facts, 'cb') else None
+        if cb is None:
+            return None
+        m = {('upvar', k): v for k, v in enumerate(clo[2])}
+        if payload is not None:
+            m[('param', 2)] = payload
+        return self.ev(subst(interp(self.facts, cb).ret, m), depth + 1)
+
+    def _ev_combinator(self, t, n, d, depth):
+        args = t[2]
+        if not args:
+            return NotImplemented
+        on_opt = 'option::Option' in d
+        on_bool = d.startswith('bool::') or d.startswith('core::bool::') or (cinfo(t[1])['self_s'] == 'bool')
+        if on_bool and n in ('then', 'then_some') and len(args) == 2:
+            b = self.ev(args[0], depth + 1)
+            if not isinstance(b, bool):
+                return None
+            if not b:
+                return ('optnone',)
+            inner = self._clo(args[1], None, depth) if n == 'then' else self.ev(args[1], depth + 1)
+            return ('optord', inner[1]) if isinstance(inner, tuple) and inner and inner[0] == 'ord' else ('optsome', inner)
+        if not on_opt or n not in ('or', 'or_else', 'and_then', 'map', 'filter', 'map_or', 'unwrap_or', 'is_some_and', 'xor'):
+            return NotImplemented
+        o = self.ev(args[0], depth + 1)
+        if not isinstance(o, tuple) or o[0] not in ('optnone', 'optsome', 'optord'):
+            return None
+        none = o[0] == 'optnone' or (o[0] == 'optord' and o[1] == NONE)
+        payload = ('field', args[0], 'Some.0')
+        if n in ('or', 'or_else') and len(args) == 2:
+            if not none:
+                return o
+            return self.ev(args[1], depth + 1) if n == 'or' else self._clo(args[1], None, depth)
+        if n == 'and_then' and len(args) == 2:
+            return ('optnone',) if none else self._clo(args[1], payload, depth)
+        if n == 'map' and len(args) == 2:
+            if none:
+                return ('optnone',)
+            inner = self._clo(args[1], payload, depth)
+            return ('optord', inner[1]) if isinstance(inner, tuple) and inner and inner[0] == 'ord' else ('optsome', inner)
+        if n == 'filter' and len(args) == 2:
+            if none:
+                return ('optnone',)
+            keep = self._clo(args[1], payload, depth)
+            return o if keep is True else ('optnone',) if keep is False else None
+        if n == 'map_or' and len(args) == 3:
+            return self.ev(args[1], depth + 1) if none else self._clo(args[2], payload, depth)
+        if n == 'unwrap_or' and len(args) == 2:
+            if none:
+                return self.ev(args[1], depth + 1)
+            return ('ord', o[1]) if o[0] == 'optord' else o[1]
+        if n == 'is_some_and' and len(args) == 2:
+            return False if none else self._clo(args[1], payload, depth)
+        return NotImplemented
 
 
 def local_summary(facts, callterm, allow_writes=False):
